@@ -1,6 +1,6 @@
 (* C42 audit: pins every property theorem's statement and prints its assumptions. *)
 From Coq Require Import List ZArith Bool.
-From DF Require Import Base.Prelude Model.TreeNode Props.C42.
+From DF Require Import Base.Prelude Model.TreeNode Proofs.TreeNodeProofs Props.C42.
 Import ListNotations.
 Open Scope Z_scope.
 
@@ -90,6 +90,35 @@ Check C42_unchanged_labels_same_tree : forall im fd fu t,
   data (snd (transform_down_up im fd fu t)) = t.
 Check C42_identity_rewrite : forall im t,
   transform_down_up im id_cb id_cb t = (full_log id_cb t, mkT t false Continue).
+Check C42_container_walk_flat : forall (f : tree -> M tnr) gs,
+  groups_ok gs = true -> apply_groups f gs = apply_until_stop f (concat gs).
+Check C42_container_map_flat : forall (f : tree -> M (Tr tree)) gs,
+  groups_ok gs = true ->
+  let X := map_groups f gs in
+  let Y := map_until_stop_and_collect f (concat gs) in
+  fst X = fst Y /\ concat (data (snd X)) = data (snd Y) /\
+  changed (snd X) = changed (snd Y) /\ rec (snd X) = rec (snd Y).
+Check C42_expr_apply : forall f t, well_grouped t = true -> gapply f t = apply f (flatten t).
+Check C42_expr_visit : forall fd fu t, well_grouped t = true -> gvisit fd fu t = visit fd fu (flatten t).
+Check C42_expr_rewrite : forall fd fu t,
+  well_grouped t = true ->
+  gres_rel (gtransform_down_up fd fu t) (transform_down_up IVec fd fu (flatten t)).
+Check C42_expr_transform_down : forall f t,
+  well_grouped t = true -> gres_rel (gtransform_down f t) (transform_down IVec f (flatten t)).
+Check C42_expr_transform_up : forall f t,
+  well_grouped t = true -> gres_rel (gtransform_up f t) (transform_up IVec f (flatten t)).
+Check C42_trailing_empty_container_refuted :
+  exists (t : gtree) (fd fu : vcb) (rd ru : rcb),
+    well_grouped t = false /\
+    s_log (scan_tree (vlift fd) (vlift fu) (flatten t)) =
+      [(PDown, 500); (PDown, 95); (PUp, 95); (PDown, 410); (PUp, 410)] /\
+    tnr_of (s_mode (scan_tree (vlift fd) (vlift fu) (flatten t))) = Jump /\
+    gvisit fd fu t =
+      ([(PDown, 500); (PDown, 95); (PUp, 95); (PDown, 410); (PUp, 410); (PUp, 500)], Continue) /\
+    fst (gtransform_down_up rd ru t) =
+      [(PDown, 500); (PDown, 95); (PUp, 95); (PDown, 410); (PUp, 410); (PUp, 500)] /\
+    s_log (scan_tree rd ru (flatten t)) = [(PDown, 500); (PDown, 95); (PUp, 95); (PDown, 410); (PUp, 410)] /\
+    gapply_children (gvcall PDown fu) t = ([(PDown, 95); (PDown, 410)], Continue).
 
 Print Assumptions C42_eq_apply.
 Print Assumptions C42_eq_visit.
@@ -114,4 +143,12 @@ Print Assumptions C42_transform_up_postorder.
 Print Assumptions C42_down_up_is_down_then_up.
 Print Assumptions C42_unchanged_labels_same_tree.
 Print Assumptions C42_identity_rewrite.
+Print Assumptions C42_container_walk_flat.
+Print Assumptions C42_container_map_flat.
+Print Assumptions C42_expr_apply.
+Print Assumptions C42_expr_visit.
+Print Assumptions C42_expr_rewrite.
+Print Assumptions C42_expr_transform_down.
+Print Assumptions C42_expr_transform_up.
+Print Assumptions C42_trailing_empty_container_refuted.
 Print Assumptions C42_nonvacuous.
